@@ -151,7 +151,7 @@ PROPS = {
                                        "DeltaSerializer::with_mtu", "DeltaSerializer::try_add_op", "DeltaSerializer::finish",
                                        "DeltaSerializer::try_add_kv", "DeltaSerializer::try_add_node", "DeltaSerializer::try_set_max_version",
                                        "DeltaBuilder::apply_op"]}],
-        "native": [N_C07S, {"test": "verif_c07_window", "pairs": []}],
+        "native": [N_C07S, {"test": "verif_c07_window", "pairs": []}, {"test": "verif_c08_op_lengths", "pairs": []}],
         "kani": [],
         "assumptions": [A_STD, A_ZSTD, A_INT, A_TEST_CFG],
         "level_text": "Size arithmetic proved under A-zstd only: the upper bound function equals the documented two-case formula; flush_block consumes exactly min(pending, threshold) bytes and emits 3 + at most that many; append keeps pending <= threshold and, for an item that fits one block, keeps W = |output| + (pending>0 ? 3+pending : 0) + 1 within the announced bound; finish returns at most W bytes; hence an op accepted by try_add_op keeps W <= mtu and DeltaSerializer::finish announces 1 <= serialized_len <= mtu. The asserts at serialize.rs (item length) and delta.rs (mtu >= 100, apply_op is ok) are unreachable under the stated preconditions. Strictly ascending key-value versions per member are an invariant of the builder.",
@@ -317,7 +317,7 @@ PROPS.update({
     "C08": {
         "level": "proof",
         "verus": [{"unit": U2, "fns": ["BlockType::serialize", "BlockType::serialized_len", "CompressedStreamWriter::finish", "DeltaSerializer::finish"]}],
-        "native": [{"test": "verif_c08_messages", "pairs": []}, N_C14],
+        "native": [{"test": "verif_c08_messages", "pairs": []}, {"test": "verif_c08_op_lengths", "pairs": []}, N_C14],
         "kani": [K("k_rt_u8", "u8 round trip, exact length, layout", tiers=("thorough",)), K("k_rt_u16", "u16 round trip, little-endian layout"), K("k_rt_u32", "u32 round trip, layout", tiers=("thorough",)),
                  K("k_rt_u64", "u64 round trip, layout"), K("k_rt_bool", "bool round trip; every byte decodes", tiers=("thorough",)), K("k_rt_heartbeat", "Heartbeat round trip", tiers=("thorough",)),
                  K("k_rt_ipv4", "IPv4 round trip, tag 4 + octets"), K("k_rt_ipv6", "IPv6 round trip, tag 6 + octets", tiers=("thorough",)), K("k_rt_socket_addr", "SocketAddr round trip (v4 and v6)"),
